@@ -146,11 +146,10 @@ Proof.
   - cbn. split; [reflexivity | lia].
   - destruct (size_align s) as [sz a] eqn:Esa.
     pose proof (size_align_ge s) as [Hge Hapos]. rewrite Esa in Hge, Hapos. cbn [fst snd] in Hge, Hapos.
-    set (overall' := if max_align <? a then (overall + a - 1) / a * a else overall).
+    set (overall' := (overall + a - 1) / a * a).
     set (max' := if max_align <? a then a else max_align).
     assert (Hmax' : 0 < max') by (unfold max'; destruct (max_align <? a); lia).
-    assert (Hov : overall <= overall').
-    { unfold overall'. destruct (max_align <? a); [now apply round_up_ge | lia]. }
+    assert (Hov : overall <= overall') by (unfold overall'; now apply round_up_ge).
     specialize (IH (overall' + sz) max' Hmax').
     destruct (merge (overall' + sz) max' r) as [offs tot]. destruct IH as [Hlen Hch].
     split; [cbn; now rewrite Hlen|].
@@ -203,11 +202,36 @@ Proof.
     + cbn [nth_error] in Hi. apply (IH _ _ H3 i j o1 s1 o2 s2); [lia | exact Hi | exact Hj].
 Qed.
 
-(* the alignment part of the intended statement is false of the code: after (16, 1) an 8-byte
-   alloca gets offset 17 *)
-Lemma consolidate_misaligned_example :
-  fst (consolidate 16 [1; 8]) = [0; 16; 17] /\ natural_alignment 8 = 8 /\ 17 mod 8 <> 0.
-Proof. repeat split. discriminate. Qed.
+(* every block sits at a multiple of its own natural alignment *)
+Definition aligned_block (off s : Z) : Prop := off mod natural_alignment (norm_size s) = 0.
+
+Lemma merge_aligned : forall sizes overall max_align,
+  Forall2 aligned_block (fst (merge overall max_align sizes)) sizes.
+Proof.
+  induction sizes as [|s r IH]; intros overall max_align; cbn [merge].
+  - constructor.
+  - destruct (size_align s) as [sz a] eqn:Esa.
+    assert (Ea : a = natural_alignment (norm_size s)) by (unfold size_align in Esa; now inversion Esa).
+    specialize (IH ((overall + a - 1) / a * a + sz) (if max_align <? a then a else max_align)).
+    destruct (merge ((overall + a - 1) / a * a + sz) (if max_align <? a then a else max_align) r) as [offs tot].
+    cbn [fst] in *. constructor; [|exact IH].
+    unfold aligned_block. rewrite <- Ea. apply Z.mod_mul.
+    pose proof (natural_alignment_pos _ (norm_size_pos s)). lia.
+Qed.
+
+Lemma consolidate_aligned : forall s0 rest,
+  Forall2 aligned_block (fst (consolidate s0 rest)) (s0 :: rest).
+Proof.
+  intros s0 rest. unfold consolidate. destruct (size_align s0) as [sz0 a0].
+  pose proof (merge_aligned rest sz0 a0) as H. destruct (merge sz0 a0 rest) as [offs tot].
+  cbn [fst] in *. constructor; [|exact H]. unfold aligned_block. apply Z.mod_0_l.
+  pose proof (natural_alignment_pos _ (norm_size_pos s0)). lia.
+Qed.
+
+(* what the snapshot did (only re-aligned when the alignment grew): after (16, 1) an 8-byte block got
+   offset 17; with the code of 09d7e093 it gets 24 *)
+Lemma consolidate_example : fst (consolidate 16 [1; 8]) = [0; 16; 24].
+Proof. reflexivity. Qed.
 
 (* ---------------------------------------------------------------- 3. x op 1 / x op 0 => mov *)
 
